@@ -19,7 +19,7 @@ PROP = 'C13'
 ENGINE = 'framing'
 LEVEL = 'exploration'
 INVARIANTS = ('delivery_mismatch', 'stalled_tail', 'invalid_frame_accepted', 'poll_exception', 'lost_message',
-              'spurious_disconnect')
+              'spurious_disconnect', 'redial_failed')
 for _i in INVARIANTS:
     INV_PROP[_i] = PROP
 RULE = ('one case = one seeded sequence of send / poll / deliver(n bytes) / corrupt operations on a client and an accepted '
@@ -136,9 +136,15 @@ class Frame(object):
         w.cur = 1
 
         def on_new(conn):
+            # every accepted connection delivers into a list of its own: what an older connection of the same
+            # dialler still delivers belongs to that older connection's sequence
             self.B.conn = conn
-            conn.setOnMessageReceivedCallback(lambda m: self.B.got.append(m))
+            self.B.got = lst = []
+            self.accepted += 1
+            conn.setOnMessageReceivedCallback(lst.append)
             conn.setOnDisconnectedCallback(lambda: self._disc(self.B))
+        self.accepted = 0
+        self.epoch = 0
         self.server = M.ts.TcpServer(self.B.poller, '10.0.0.2', 4002, on_new, sendBufferSize=cfg['cap'], recvBufferSize=cfg.get('recvbuf', 1 << 13),
                                      connectionTimeout=cfg.get('timeout', 1e9))
         self.server.bind()
@@ -203,6 +209,58 @@ class Frame(object):
             if p.delivered not in self.bounds[d]:
                 self.splits += 1      # this read ends strictly inside a frame
         return out
+
+    def reconnect(self, how, opno):
+        """The dialler's connection ends in the middle of whatever is going on (its own disconnect() or a reset it
+        notices) and the SAME TcpConnection object dials again, as TCPTransport does.  A new message sequence starts
+        on the new connection; messages of the old one that were not delivered are lost with it (allowed), the new
+        sequence must arrive complete and intact."""
+        CS = M.tc.CONNECTION_STATE
+        w = self.w
+        self.check(opno)
+        if how == 'reset':
+            self.net.inject_reset(self.cid, 0)
+            for _ in range(3):
+                self.poll(0)
+                if self.A.conn.state == CS.DISCONNECTED:
+                    break
+        w.cur = 0
+        if self.A.conn.state != CS.DISCONNECTED:
+            self.A.conn.disconnect()
+        # the old connection's remains reach the acceptor (or not) before the new one is dialled
+        if how != 'late_fin':
+            for d in (0, 1):
+                self.net.deliver(self.pipes[d].pid, 0)
+            self.poll(1)
+        self.epoch += 1
+        self.stat('reconnect_' + how)
+        for side in (self.A, self.B):
+            side.got = []
+            side.sent = []
+            side.sent_bytes = bytearray()
+        self.ref = {0: RefReceiver(), 1: RefReceiver()}
+        self.wire = {0: bytearray(), 1: bytearray()}
+        self.corrupted = {0: False, 1: False}
+        self.bounds = {0: set([0]), 1: set([0])}
+        n0 = len(self.connected)
+        acc0 = self.accepted
+        w.cur = 0
+        self.A.conn.connect('10.0.0.2', 4002)
+        cids = [c for c in self.net.pending]
+        if not cids:
+            raise HarnessError('C13 harness: reconnect did not dial')
+        self.cid = cids[-1]
+        self.net.resolve_connect(self.cid, 'ok')
+        self.poll(0)
+        self.poll(1)
+        self.poll(0)
+        if self.accepted == acc0 or len(self.connected) == n0:
+            self.flag('redial_failed', 'the dialler\'s TcpConnection object did not get a working connection on its second connect() (accepted=%s connected callbacks=%d)' % (
+                self.accepted > acc0, len(self.connected) - n0), opno)
+            return 'failed'
+        c = self.net.conns[self.cid]
+        self.pipes = {0: c.p_cs, 1: c.p_sc}
+        return 'ok'
 
     def corrupt(self, d, kind, frac, val):
         """Corrupt bytes that are still in flight in direction d (not yet seen by the reader)."""
@@ -351,6 +409,8 @@ def draw(rng, tier):
                nops=rng.choice([20, 60, 150]),
                maxsize=rng.choice([0, 10, 300, 3000, 20000] if cap < 1000 else [10, 3000, 20000, 200000]),
                bidir=rng.random() < 0.5)
+    # the dialler's TcpConnection object is disconnected in the middle of the traffic and dials again (0-2 times)
+    cfg['reconnects'] = rng.choice([0, 0, 1, 2])
     return cfg
 
 
@@ -359,6 +419,7 @@ def gen_ops(rng, cfg):
     ops = []
     kinds = ['bytes', 'zeros', 'str', 'dict', 'list', 'int', 'empty']
     ncorrupt = 0
+    nrec = 0
     for _ in range(cfg['nops']):
         r = rng.random()
         if r < 0.3:
@@ -369,6 +430,9 @@ def gen_ops(rng, cfg):
             ops.append(['poll', rng.randrange(2)])
         elif r < 0.95:
             ops.append(['dlv', rng.randrange(2), rng.choice([0, 0, 1, 1, 2, 3, 4, 5, 7, 64, 1000])])
+        elif cfg.get('reconnects') and nrec < cfg['reconnects'] and r < 0.965:
+            nrec += 1
+            ops.append(['reconn', rng.choice(['local', 'local', 'reset', 'late_fin'])])
         elif cfg['corrupt'] and ncorrupt < 2:
             ncorrupt += 1
             ops.append(['corrupt', rng.randrange(2) if cfg['bidir'] else 0, rng.choice(['neglen', 'shorter', 'longer', 'flip', 'flip', 'badpickle', 'badpickle']),
@@ -400,6 +464,8 @@ def execute(seed, cfg, ops):
                 out = F.deliver(op[1], op[2])
             elif k == 'corrupt':
                 out = F.corrupt(op[1], op[2], op[3], op[4])
+            elif k == 'reconn':
+                out = F.reconnect(op[1], opno)
         except HarnessError:
             raise
         except Exception as e:
